@@ -1,6 +1,7 @@
 import DdsModel.Progress
 import DdsModel.Drv.C14
-namespace Dds.Drv
+namespace Dds.Drv.C17
+open Dds.Drv.C14
 open Dds
 
 def parseColor : String → Option ColorFormat
@@ -43,7 +44,7 @@ structure C17Case where
 
 /-- the run of one level; fragment submissions in index order (the order does not matter for what
 is printed, see `C17.parallel_monotone`) -/
-def levelRun (c : C17Case) (sup : Option Support) (encs : List Enc) (w h : Nat) :
+def levelRun (c : C17Case) (sup : Option Support) (encs : List PgEnc) (w h : Nat) :
     Option (LevelRun × Nat × Bool) := do
   let (w, h) := normSize w h
   let e ← pickEncoder encs c.color c.dith
@@ -116,4 +117,8 @@ def runC17 (line : String) : String :=
     | _, _, _, _, _, _ => "bad-case"
   | _ => "bad-case"
 
+end Dds.Drv.C17
+
+namespace Dds.Drv
+def runC17 : String → String := C17.runC17
 end Dds.Drv
